@@ -137,7 +137,7 @@ def enumerate_inputs(item):
         if name == 'Reservoir Depth':
             v = v / 1000.0 if v > 100 else v     # (held in metres after the base was read)
         for user, (dim, sc, off) in cat.items():
-            if user == pref or dim != cat[pref][0] or user == '':
+            if dim != cat[pref][0] or user == '':      # (the preferred unit written out explicitly is a listed unit too)
                 continue
             x = float(convert(cat, Fraction(v), pref, user))
             jobs.append({'family': fam, 'module': mod, 'name': name, 'pref': pref, 'user': user, 'x': x, 'text': f'{x!r} {user}',
